@@ -285,7 +285,12 @@ class ActionsFamily:
             keys = keys[1:] + keys[:1]          # the pushed acts first: closing them can complete the step
         else:
             rng.shuffle(keys)
+        # the last of them is sent back to its own step now and then: that step may have ended a moment ago
+        back_last = rng.random() < 0.25
         for key in keys:
+            if back_last and key == keys[-1]:
+                ops.append({'op': 'act', 'target': {'pid': 'p1', 'key': key, 'state': 'interrupted'}, 'action': 'back', 'options': {'to': 's1'}})
+                continue
             if key.startswith('kpush'):
                 action = rng.choice(['skip', 'skip', 'next', 'next', 'remove', 'submit', 'submit', 'error', 'abort', 'back', 'cancel'])
             else:
